@@ -215,6 +215,8 @@ class Fn:
         if getattr(self, '_tg', None) is not None:
             return self._tg
         out = {}
+        jumps = []
+        self._tg_jumps = jumps
         def rec(t, guards):
             if isinstance(t, list):
                 for c in t:
@@ -263,12 +265,17 @@ class Fn:
                 rec(t.get('body'), guards)
                 rec(t.get('handlers'), guards)
             elif k in ('BreakStmt', 'ContinueStmt', 'GotoStmt', 'NullStmt'):
-                pass
+                jumps.append((t, list(guards)))
             else:
                 out.setdefault((t.get('ln'), show(t)), guards)
         rec(self.tree, [])
         self._tg = out
         return out
+
+    def jump_guards(self):
+        """[(break / continue / goto node, enclosing conditions as in tree_guards)]"""
+        self.tree_guards()
+        return self._tg_jumps
 
     def enclosing(self, st):
         """enclosing structured conditions of a CFG statement (see tree_guards)"""
@@ -739,3 +746,139 @@ def alias_defs(f):
                     elif (v.get('t') or {}).get('p') and v['id'] in sd:
                         out[v['id']] = v['init']
     return out
+
+
+def is_local_helper(caller, cf):
+    """cf is a small function of the repository that a maintainer could have extracted from `caller`: a file-static / inline function
+    of the same file, or a member function of the same class; never an exported API function"""
+    if cf is None or cf.tree is None or cf.d.get('extern_c') or cf.name == caller.name:
+        return False
+    if len(cf.d.get('blocks', [])) > 40:
+        return False
+    same_file = cf.file == caller.file or (cf.file.rsplit('.', 1)[0] == caller.file.rsplit('.', 1)[0])
+    if not cf.d.get('linkage_external', True) and same_file:
+        return True
+    cls_a, cls_b = caller.name.rsplit('::', 1)[0] if '::' in caller.name else None, cf.name.rsplit('::', 1)[0] if '::' in cf.name else None
+    return bool(cls_a) and cls_a == cls_b and cf.d.get('helper_like', True) and len(cf.d.get('blocks', [])) <= 12
+
+
+def with_helpers(facts, fn, depth=1):
+    """every CFG statement of fn as (b, j, st, s, owner, bind) with owner = fn and bind = {}, and - for each call of a local helper
+    (is_local_helper) - every statement of the helper as (b, j, st, s, helper, bind): b, j, st are those of the CALL SITE in fn (so
+    order and dominance questions are asked about the caller), s is the helper's statement and bind maps the helper's parameter ids
+    to the argument expressions of this call (use subst(e, bind) to read an expression of the helper in the caller's terms)."""
+    for b, j, st in fn.cfg.stmts():
+        yield b, j, st, st['s'], fn, {}
+        if depth <= 0:
+            continue
+        for x in calls_in(st['s']):
+            for cf in facts.fns.get(callee_name(x), [])[:1]:
+                if not is_local_helper(fn, cf):
+                    continue
+                args = x.get('a') or []
+                bind = {p['id']: args[i] for i, p in enumerate(cf.params) if i < len(args)}
+                for b2, j2, st2, s2, owner, bind2 in with_helpers(facts, cf, depth - 1):
+                    bb = dict(bind)
+                    for k_, v_ in bind2.items():
+                        bb[k_] = subst(v_, bind)
+                    yield b, j, st, s2, owner, bb
+
+
+PURE_CALLS = ('log', 'log10', 'log2', 'exp', 'sqrt', 'floor', 'ceil', 'round', 'fabs', 'abs', 'min', 'max', 'pow', 'sin', 'cos', 'lround', 'trunc')
+
+
+def inline_expr(facts, call, depth=0):
+    """an expression with the value of `call` when the callee is a repository function of the shape
+           [locals defined once]  [if(c) return A;]*  return B;
+    that writes nothing but its own locals: (c1 ? A1 : (c2 ? A2 : B), [(parameter, argument)]) with the locals replaced by their
+    initialisers; the parameters remain and are bound to the argument values by the engine that evaluates the expression (so that
+    a test on a parameter narrows it).  None for every other callee.  (Helpers extracted from a formula are read as the formula.)"""
+    if depth > 2:
+        return None
+    fl = facts.fns.get(callee_name(call)) if callee_name(call) else None
+    if not fl or fl[0].tree is None or '/chips/' in fl[0].file:
+        return None
+    cf = fl[0]
+    if not cf.file.startswith(build.REPO) or call.get('obj') is not None:
+        return None
+    args = call.get('a') or []
+    if len(args) != len(cf.params):
+        return None
+    for a in args:
+        if any(isinstance(y, dict) and (is_incdec(y) or is_assign(y)) for y in walk(a)):
+            return None
+    body = cf.tree.get('body') if cf.tree.get('k') == 'CompoundStmt' else None
+    if not body:
+        return None
+    sub = {}        # locals only: the parameters stay, the caller binds them to the argument values (see the return value)
+    def pure(e):
+        for y in walk(e):
+            if not isinstance(y, dict):
+                continue
+            if is_incdec(y) or is_assign(y):
+                return False
+            if 'callee' in y and short(callee_name(y)) not in PURE_CALLS and inline_expr(facts, y, depth + 1) is None:
+                return False
+        return True
+    def ret_of(t):
+        t = t['body'][0] if isinstance(t, dict) and t.get('k') == 'CompoundStmt' and len(t.get('body', [])) == 1 else t
+        return t.get('e') if isinstance(t, dict) and t.get('k') == 'ReturnStmt' else None
+    parts = []      # [(cond, value)] then the final value
+    final = None
+    for it in body:
+        if not isinstance(it, dict) or final is not None:
+            return None
+        k = it.get('k')
+        if k == 'DeclStmt':
+            for v in it.get('decls', []):
+                if v.get('init') is None or v.get('ref') or not pure(v['init']):
+                    return None
+                sub[v['id']] = subst(v['init'], sub)
+        elif k == 'IfStmt' and ret_of(it.get('then')) is not None and pure(it['cond']) and pure(ret_of(it['then'])):
+            if it.get('else') is None:
+                parts.append((subst(it['cond'], sub), subst(ret_of(it['then']), sub)))
+            elif ret_of(it['else']) is not None and pure(ret_of(it['else'])):
+                parts.append((subst(it['cond'], sub), subst(ret_of(it['then']), sub)))
+                final = subst(ret_of(it['else']), sub)
+            else:
+                return None
+        elif k == 'ReturnStmt' and it.get('e') is not None and pure(it['e']):
+            final = subst(it['e'], sub)
+        elif k == 'NullStmt':
+            continue
+        else:
+            return None
+    if final is None:
+        return None
+    # locals must not be reassigned anywhere (checked by construction: only DeclStmt / if-return / return were accepted)
+    rt = cf.d.get('ret') or call.get('t') or {}
+    e = final
+    for c, v in reversed(parts):
+        e = {'k': 'ConditionalOperator', 'cnd': c, 'l': v, 'r': e, 't': rt, 'ln': call.get('ln')}
+    # the value is converted to the return type; parameters are to be bound to the arguments by the caller
+    return {'k': 'ImplicitCastExpr', 'e': e, 't': rt, 'ln': call.get('ln')}, list(zip(cf.params, args))
+
+
+def canon_access(e, al=None):
+    """e with local aliases (alias_defs) replaced by what they name and `*(p + i)` / `*(i + p)` rewritten as p[i]: one shape for
+    `T[a][b]`, `row = T[a]; row[b]` and `row = T[a]; *(row + b)`"""
+    if al:
+        e = subst(e, al)
+    def rw(x):
+        if isinstance(x, list):
+            return [rw(y) for y in x]
+        if not isinstance(x, dict):
+            return x
+        x = {k: (rw(v) if k not in ('t', 'ot') else v) for k, v in x.items()}
+        if x.get('k') == 'UnaryOperator' and x.get('op') == '*':
+            inner = strip(x.get('e'))
+            if isinstance(inner, dict) and inner.get('k') == 'BinaryOperator' and inner.get('op') == '+':
+                l, r = strip(inner['l']), strip(inner['r'])
+                lp = (l.get('t') or {}).get('p') or (l.get('t') or {}).get('arr') or l.get('k') == 'ArraySubscriptExpr'
+                rp = (r.get('t') or {}).get('p') or (r.get('t') or {}).get('arr') or r.get('k') == 'ArraySubscriptExpr'
+                if lp and not rp:
+                    return {'k': 'ArraySubscriptExpr', 'b': l, 'i': r, 't': x.get('t'), 'ln': x.get('ln')}
+                if rp and not lp:
+                    return {'k': 'ArraySubscriptExpr', 'b': r, 'i': l, 't': x.get('t'), 'ln': x.get('ln')}
+        return x
+    return rw(e)
